@@ -62,6 +62,7 @@ extern int rec_real_execve(const char *path, char *const argv[], char *const env
 static const char *g_ini;
 static int g_timeout_ms = 20000;
 static int g_lift_fsize_after_call;
+static pid_t g_tty_reader; static int g_tty_slave_fd = -1;      /* lazily reading helper process (terminal or pipe) */
 static int g_pre_errno;
 static __thread int t_last_errno;
 static int g_track_pending;            /* errno value the "caller" has when it enters the wrapped call */
@@ -638,7 +639,29 @@ static void op_stdio(const op_t *op)
     snprintf(name, sizeof name, "fd%d", fd);
     if (fd == 1) fflush(stdout);
     if (fd == 2) fflush(stderr);
-    if (!strcmp(mode, "pipe")) {
+    if (!strcmp(mode, "lazypipe")) {
+        /* args: fd "lazypipe" <delay ms> <file>: an ordinary 64 KiB pipe whose reader (a helper process) starts late and reads slowly,
+           copying everything into <file>; op 'y' closes our end and waits for the helper */
+        int p[2];
+        if (pipe(p) < 0) { ev_error("pipe"); return; }
+        int delay = arg_int(&op->a[2]);
+        char *path = dupz(op->a[3].p, op->a[3].len);
+        fflush(NULL);
+        pid_t h = fork();
+        if (h == 0) {
+            close(p[1]);
+            for (int f = 3; f < 256; f++) if (f != p[0]) close(f);
+            int o = open(path, O_WRONLY | O_CREAT | O_TRUNC, 0666);
+            usleep((useconds_t) delay * 1000);
+            char b[4096];
+            for (;;) { ssize_t k = read(p[0], b, sizeof b); if (k <= 0) { if (k < 0 && errno == EINTR) continue; break; } if (write(o, b, (size_t) k) < 0) break; usleep(300); }
+            _exit(0);
+        }
+        close(p[0]);
+        dup2(p[1], fd); if (p[1] != fd) close(p[1]);
+        g_tty_reader = h; g_tty_slave_fd = fd;
+        free(path);
+    } else if (!strcmp(mode, "pipe")) {
         int p[2];
         if (pipe(p) < 0) { ev_error("pipe"); return; }
         fcntl(p[1], F_SETPIPE_SZ, 1 << 20);
@@ -701,7 +724,6 @@ static void op_watch(const op_t *op)
     free(name); free(path);
 }
 
-static pid_t g_tty_reader; static int g_tty_slave_fd = -1;
 static void op_ctty(const op_t *op)
 {
     /* args: none, or "lazy" <delay ms> <file>: the terminal is read by a helper process that starts draining only after the delay
